@@ -248,3 +248,21 @@ def affine_trace(body, op, depth=0):
 def affine(body, op):
     t, k = affine_trace(body, op)
     return t.describe(), k
+
+
+def copied_from(body, op):
+    """name of the user variable an operand was copied from (through plain copies/moves only)"""
+    if op.place is None or not op.place.is_local:
+        return None
+    l = op.place.local
+    for _ in range(6):
+        if body.local_name(l):
+            return body.local_name(l)
+        d = body.unique_def(l)
+        if isinstance(d, Stmt) and d.rv.kind == "use" and d.rv.ops[0].place is not None and d.rv.ops[0].place.is_local:
+            l = d.rv.ops[0].place.local
+        else:
+            return None
+    return None
+
+
